@@ -261,6 +261,13 @@ class Broker:
     def _dispatch(self, conn, req, action):
         w = self.world
         kind = action[0] if action else None
+        if conn.server_closed:
+            # a delayed request whose connection went away meanwhile is dropped
+            # unapplied (the properties quantify over "dropped before / after
+            # apply" and "response lost", not over "applied after the client
+            # already gave up")
+            w.probe("delayed_request_dropped")
+            return
         if kind == "drop_before_apply":
             w.count_fault(kind)
             conn.server_close(action[1])
@@ -362,7 +369,7 @@ class Cluster:
         self.txns = None  # TxnCoordinatorModel, attached by txn.py
         self.fetch_cut = "bytes"  # bytes | batches
         self.unknown_version_ok = False
-        self.seq_start = {}  # (pid?, tp) pre-aligned starting sequences: tp -> start
+        self.seq_start = {}  # (client_id, tp) -> pre-aligned starting sequence
         self.auto_create = False
 
     def bootstrap(self):
@@ -622,7 +629,7 @@ class Cluster:
             st = part.pids.get(bt.pid)
             if st is None:
                 st = part.pids[bt.pid] = PidState()
-                start = self.seq_start.get((topic, index))
+                start = self.seq_start.get((req.client_id, (topic, index)))
                 if start is not None:
                     st.last_seq = (start - 1) % 2**31 if start != 0 else -1
                     st.epoch = bt.epoch
